@@ -79,6 +79,7 @@ fn main() {
     std::panic::set_hook(Box::new(|_| {}));
     let reg = gen_types::registry();
     let sreg = gen_types::slice_registry();
+    let dnames = gen_types::dtype_names();
     let args: Vec<String> = std::env::args().collect();
     if args.len() > 1 && args[1] == "names" {
         for (i, e) in reg.iter().enumerate() {
@@ -122,6 +123,14 @@ fn main() {
                 Some(t) => format!("schema {}", (reg[i.parse::<usize>().unwrap()].schema)(&t)),
                 None => "badval".into(),
             }),
+            ["dtype", i] => {
+                let (a, e, _) = &dnames[i.parse::<usize>().unwrap()];
+                Some(format!("dtype {} {}", if a == e { "same" } else { "differs" }, hex(a.as_bytes())))
+            }
+            ["derive", i, ..] => {
+                let (a, _, t) = &dnames[i.parse::<usize>().unwrap()];
+                Some(format!("derive {} {}", hex(a.as_bytes()), hex(t.as_bytes())))
+            }
             ["xdeser", i, j, val] => Some(match parse(val) {
                 Some(t) => match (reg[i.parse::<usize>().unwrap()].ser)(&t) {
                     Ok((_, bytes)) => {
